@@ -529,6 +529,81 @@ fn search_strides(ctx: &mut Ctx) {
     ctx.gen = "enum";
 }
 
+/// C01, "whatever lies after the buffer in memory": every input of this family is parsed in place at the END of a mapping whose next
+/// page is PROT_NONE, so a read of even one byte past the buffer is a SIGSEGV.  Each input is announced on stdout before it is
+/// parsed; the driver (tools/witness.py) turns a death by signal into a finding for the last announced input.
+#[cfg(all(target_os = "linux", target_arch = "x86_64"))]
+mod guard {
+    use core::arch::asm;
+    unsafe fn syscall6(n: usize, a1: usize, a2: usize, a3: usize, a4: usize, a5: usize, a6: usize) -> isize {
+        let ret: isize;
+        asm!("syscall", inlateout("rax") n as isize => ret, in("rdi") a1, in("rsi") a2, in("rdx") a3, in("r10") a4, in("r8") a5, in("r9") a6,
+             lateout("rcx") _, lateout("r11") _, options(nostack));
+        ret
+    }
+    pub struct Arena { base: *mut u8, data: usize }
+    impl Arena {
+        pub fn new(pages: usize) -> Option<Arena> {
+            unsafe {
+                let len = (pages + 1) * 4096;
+                let p = syscall6(9, 0, len, 3 /* READ|WRITE */, 0x22 /* PRIVATE|ANONYMOUS */, usize::MAX, 0);
+                if p < 0 { return None; }
+                if syscall6(10, p as usize + pages * 4096, 4096, 0 /* PROT_NONE */, 0, 0, 0) != 0 { return None; }
+                Some(Arena { base: p as *mut u8, data: pages * 4096 })
+            }
+        }
+        /// a copy of `d` that ends exactly where the unmapped page begins
+        pub fn place<'a>(&'a self, d: &[u8]) -> &'a [u8] {
+            assert!(d.len() <= self.data);
+            unsafe {
+                let dst = self.base.add(self.data - d.len());
+                core::ptr::copy_nonoverlapping(d.as_ptr(), dst, d.len());
+                core::slice::from_raw_parts(dst, d.len())
+            }
+        }
+    }
+}
+#[cfg(all(target_os = "linux", target_arch = "x86_64"))]
+fn search_guard(ctx: &mut Ctx) {
+    use std::io::Write;
+    let arena = match guard::Arena::new(4) { Some(a) => a, None => { eprintln!("guard: mmap failed"); return; } };
+    let mut run = |ctx: &mut Ctx, kind: u8, d: &[u8], cfgb: u8| {
+        if d.len() > 16000 { return; }
+        let b = arena.place(d);
+        println!("GUARD-TRY {} {} {}", kind, cfgb, hex(d));
+        let _ = std::io::stdout().flush();
+        ctx.evals += 1;
+        match kind {
+            0 => { for e in 0..2u8 { let _ = real_request(b, Cfg::from_bits(cfgb), 3, e); } }
+            1 => { for e in 0..2u8 { let _ = real_response(b, Cfg::from_bits(cfgb), 3, e); } }
+            2 => { let mut arr = vec![httparse::Header { name: SENT_NAME, value: SENT_VAL }; 3]; let _ = httparse::parse_headers(b, &mut arr[..]); }
+            _ => { let _ = httparse::parse_chunk_size(b); }
+        }
+    };
+    let msgs: &[(u8, &[u8], &[u8])] = &[
+        (0, b"GET /index.html?q=1 HTTP/1.1\r\nHost: example.com\r\nX-Long-Header-Name_1: some value, here\t!\r\nA:\r\n\r\n", &[0, 4 + 16 + 64]),
+        (0, b"POST /p HTTP/1.0\nA:b\n\n", &[0]), (0, b"DELETE  /a  HTTP/1.1\r\n\r\n", &[4]),
+        (1, b"HTTP/1.1 200 OK\r\nServer: nginx/1.2\r\nContent-Length: 12345\r\n\r\n", &[0, 127]),
+        (1, b"HTTP/1.1 301  Moved \r\nLocation : /a b\r\n folded\r\n\tmore \r\nBad Name\r\nZ: 1\r\n\r\n", &[1 + 2 + 8 + 32]),
+        (2, b"Host: a\r\nCookie: k=v; x=y\r\nX-Forwarded-For-0123456789-abcdefgh: 0123456789 abcdefghijklmnopqrstuvwxyz\r\n\r\n", &[0]),
+        (3, b"1aF;ext=1\r\n", &[0]), (3, b"fFfFfFfF0 \t\r\n", &[0]),
+    ];
+    for &(kind, m, cfgs) in msgs { for &c in cfgs { for k in 0..=m.len() { run(ctx, kind, &m[..k], c); } } }
+    // long fields ending at every length (every block phase of every scanner meets the end of the mapping)
+    for l in 0..=200usize {
+        let mut t = b"GET /".to_vec(); t.extend(pad(b'a', l)); run(ctx, 0, &t, 0);
+        let mut v = b"GET / HTTP/1.1\r\nN: ".to_vec(); v.extend(pad(b'v', l)); run(ctx, 0, &v, 0);
+        let mut n = b"HTTP/1.1 200 OK\r\n".to_vec(); n.extend(pad(b'n', l)); run(ctx, 1, &n, 0);
+        let mut r = b"HTTP/1.1 200 ".to_vec(); r.extend(pad(b'r', l)); run(ctx, 1, &r, 0);
+        let mut h = b"N: ".to_vec(); h.extend(pad(b'v', l)); run(ctx, 2, &h, 0);
+        let mut c = b"1;".to_vec(); c.extend(pad(b'e', l)); run(ctx, 3, &c, 0);
+        let mut f = b"HTTP/1.1 200 OK\r\nX: ".to_vec(); f.extend(pad(b'a', l)); f.extend(b"\r\n "); run(ctx, 1, &f, 2); f.extend(pad(b'b', l % 40)); run(ctx, 1, &f, 2);
+    }
+    println!("GUARD-DONE");
+}
+#[cfg(not(all(target_os = "linux", target_arch = "x86_64")))]
+fn search_guard(_ctx: &mut Ctx) {}
+
 fn pad(c: u8, n: usize) -> Vec<u8> { vec![c; n] }
 /// WITNESS_DEEP=k (thorough tier): every bounded-exhaustive enumeration goes k symbols deeper
 fn deep() -> usize { std::env::var("WITNESS_DEEP").ok().and_then(|v| v.parse().ok()).unwrap_or(0) }
@@ -1033,6 +1108,7 @@ fn main() {
         if fam == "headers" || fam == "all" { search_header_block(&mut ctx, b"", 2); }
         if fam == "history" || fam == "all" { search_history(&mut ctx); }
         if fam == "sweep" || fam == "all" { search_sweep(&mut ctx); }
+        if fam == "guard" { search_guard(&mut ctx); }
         if fam == "dict" || fam == "all" { search_dict(&mut ctx); }
         if fam == "strides" || fam == "all" { search_strides(&mut ctx); }
         if GETTER_BAD.load(Ordering::Relaxed) {
@@ -1088,6 +1164,22 @@ fn main() {
         for f in &ctx.findings[before..] { println!("stability: {}", f.real); }
         ctx.print();
         std::process::exit(if ctx.findings.is_empty() { 0 } else { 1 });
+    }
+    #[cfg(all(target_os = "linux", target_arch = "x86_64"))]
+    if args.len() >= 5 && args[1] == "guardreplay" {
+        // witness guardreplay <kind 0..3> <cfgbits> <hex>: parse the input in place in front of an unmapped page (dies by SIGSEGV on an over-read)
+        let arena = guard::Arena::new(4).expect("mmap");
+        let d = unhex(&args[4]);
+        let b = arena.place(&d);
+        let cfgb: u8 = args[3].parse().unwrap();
+        match args[2].as_str() {
+            "0" => { for e in 0..2u8 { let _ = real_request(b, Cfg::from_bits(cfgb), 3, e); } }
+            "1" => { for e in 0..2u8 { let _ = real_response(b, Cfg::from_bits(cfgb), 3, e); } }
+            "2" => { let mut arr = vec![httparse::Header { name: SENT_NAME, value: SENT_VAL }; 3]; let _ = httparse::parse_headers(b, &mut arr[..]); }
+            _ => { let _ = httparse::parse_chunk_size(b); }
+        }
+        println!("returned normally: no byte past the end of the buffer was read");
+        std::process::exit(0);
     }
     eprintln!("usage: witness search <chunk|request|response|headers|all> | witness replay <family> <cfgbits> <cap> <hex>");
     std::process::exit(2);
